@@ -18,7 +18,8 @@ Oracle (from the property statement, nothing is copied from the code):
   ``S``: (isolation) ``random.getstate()`` and ``numpy.random.get_state()``
   are exactly what they were before the call; (determinism) a second execution
   from state ``S`` -- new generator, or the same generator object with its
-  state restored, or even the same protocol object -- yields the bit-identical
+  state restored, the same protocol object, or an identically built protocol
+  object that has already been used under another state -- yields the bit-identical
   outcome and leaves ``g`` in the same end state, whatever was done to the
   global streams, and whatever unrelated calls are interleaved between the
   individual calls of the second execution.
@@ -118,7 +119,10 @@ def first_diff(a, b, path="out"):
 
 def glob_state():
     """exact state of the two global streams (python `random`, numpy legacy global)"""
-    return ("l", (canon(random.getstate()), canon(numpy.random.get_state(legacy=False))))
+    st = numpy.random.get_state(legacy=False)
+    nps = (st["bit_generator"], st["state"]["key"].tobytes(), int(st["state"]["pos"]), int(st["has_gauss"]),
+           struct.pack("<d", float(st["gauss"])))
+    return ("l", (random.getstate(), nps))
 
 
 def glob_diff(a, b):
@@ -522,7 +526,10 @@ def run_program(U, program, rng, cache=None, between=None):
         obj = op_prepare(U, op, r) if fresh else cache[slot]
         if cache is not None and fresh:
             cache[slot] = obj
-        outs.append(op_run(U, op, obj, r, fresh, between))
+        res = op_run(U, op, obj, r, fresh, between)
+        # on the global stream the state left behind by each call belongs to its outcome: a call that consumes a
+        # different amount of entropy is then identified itself, not the next call that inherits the shifted stream
+        outs.append([res, glob_state() if rng is None else None])
         if between is not None and slot + 1 < len(program):
             between(1000 + slot)
     return outs
@@ -779,13 +786,16 @@ def eval_seeded(case):
     from pybrops.core.random import prng
     U = universe(case["pop"])
     program, s = case["program"], case["seed"]
-    cache = {} if case.get("persist") else None
-    if cache is not None:
-        # objects built once, long before the seeding, and used in every run
+    cache = cache2 = None
+    if case.get("persist"):
+        # objects built long before the seeding.  `cache`: objects that have already been USED (under an unrelated
+        # seed) -- run 1 and 3; `cache2`: identically built objects that were never used -- run 2.  A protocol object
+        # must not carry hidden stochastic state from earlier use into a re-seeded run.
         numpy.random.seed(99)
         random.seed(99)
-        for slot, op in enumerate(program):
-            cache[slot] = op_prepare(U, op, None)
+        cache = {slot: op_prepare(U, op, None) for slot, op in enumerate(program)}
+        run_program(U, program, None, cache)
+        cache2 = {slot: op_prepare(U, op, None) for slot, op in enumerate(program)}
     findings = []
     with _guard(case):
         do_noise(U, case["hist1"])
@@ -796,7 +806,7 @@ def eval_seeded(case):
         do_noise(U, case["hist2"])
         prng.seed(s)
         g2 = glob_state()
-        o2 = canon(run_program(U, program, None, cache))
+        o2 = canon(run_program(U, program, None, cache2))
         e2 = glob_state()
         # a third run under another seed tells whether the program is stochastic at all
         prng.seed(case["seed"] + 1 if case["seed"] >= 0 else case["seed"] - 1)
@@ -812,7 +822,8 @@ def eval_seeded(case):
         findings.append(("seeded:same-stream-consumption", _seeded_cls(program, pinned=case.get("pin") is not None),
                          "seed(%r); program [%s]: equal outputs but the %s left behind differs (any longer program diverges)" % (
                              s, fam, glob_diff(e1, e2))))
-    return dict(findings=findings, nontrivial=(o1 != o3))
+    # non-trivial: the returned data (not merely the stream states) depend on the seed
+    return dict(findings=findings, nontrivial=([e[1][0] for e in o1[1]] != [e[1][0] for e in o3[1]]))
 
 
 def _seeded_cls(program, o1=None, o2=None, pinned=False):
@@ -845,7 +856,7 @@ def eval_explicit(case):
         do_noise(U, case["noise1"])
         gen = make_gen(case["gkind"], case["gseed"])
         cache = None
-        if mode == "same-obj":
+        if mode in ("same-obj", "used-obj"):
             cache = {0: op_prepare(U, op, gen)}          # construction may consume; S is taken afterwards
         S = gen_state(gen)
         G1 = glob_state()
@@ -854,14 +865,22 @@ def eval_explicit(case):
         G1b = glob_state()
         # second execution from the same generator state under different global streams
         do_noise(U, case["noise2"])
+        cache2 = cache
         if mode == "fresh-gen":
             gen2 = make_gen(case["gkind"], case["gseed"])
+        elif mode == "used-obj":
+            # an identically built second object that has already been used with the generator in ANOTHER state
+            gen2 = make_gen(case["gkind"], case["gseed"])
+            cache2 = {0: op_prepare(U, op, gen2)}
+            set_gen_state(gen2, gen_state(make_gen(case["gkind"], case["gseed"] + 777)))
+            run_program(U, program, gen2, dict(cache2))
+            set_gen_state(gen2, S)
         else:
             gen2 = gen
             set_gen_state(gen2, S)
         inter = case.get("inter") or []
         G2 = glob_state()
-        o2 = canon(run_program(U, program, gen2, dict(cache) if cache is not None else None))
+        o2 = canon(run_program(U, program, gen2, dict(cache2) if cache2 is not None else None))
         E2 = canon(gen_state(gen2))
         G2b = glob_state()
         o3 = E3 = None
@@ -869,7 +888,7 @@ def eval_explicit(case):
             # third execution with unrelated calls interleaved between the individual calls
             def between(i):
                 do_noise(U, inter)
-            gen3 = make_gen(case["gkind"], case["gseed"]) if mode == "fresh-gen" else gen
+            gen3 = make_gen(case["gkind"], case["gseed"]) if mode == "fresh-gen" else gen     # cached objects are bound to `gen`
             set_gen_state(gen3, S)
             o3 = canon(run_program(U, program, gen3, dict(cache) if cache is not None else None, between))
             E3 = canon(gen_state(gen3))
@@ -1045,7 +1064,7 @@ SEEDED_KINDS = ["mate", "mate", "phenotype", "phenotype", "sus", "tiled_choice",
 
 
 def gen_seeded_cases(rnd, tier):
-    ncase = 600 if tier == "quick" else 12000
+    ncase = 600 if tier == "quick" else 6000
     # every kind alone first (so that one broken component is attributed to itself), then mixed programs
     singles = sorted(set(SEEDED_KINDS))
     for i in range(ncase):
@@ -1065,7 +1084,7 @@ def gen_seeded_cases(rnd, tier):
 @unit(P, "ring[seeded programs: reseed => bit-identical]", "R", bounded=True,
       note="bounded: programs of <= 6 calls (x <= 3 repeats) out of 7 mating protocols, G_E_Phenotyping, 4 sampling functions, "
            "8 selection configurations, select(), hill-climbers, spawn, prng functions, apply_jitter, EMBV, random-selection "
-           "problem; <= 8 taxa, <= 7 markers, <= 3 traits; 600 (quick) / 12000 (thorough) programs, two random histories each; "
+           "problem; <= 8 taxa, <= 7 markers, <= 3 traits; 600 (quick) / 6000 (thorough) programs, two random histories each; "
            "seeds from a 15-value edge list and 48-bit random")
 def u_seeded(ctx):
     ctx.rule = ("random programs (VERIF_SEED) of stochastic API calls; each is run after history1;seed(s) and after history2;seed(s) "
@@ -1083,7 +1102,7 @@ EXPLICIT_KINDS = ["mate", "phenotype", "sus", "tiled_choice", "axis_shuffle", "o
 
 
 def gen_explicit_cases(rnd, tier):
-    ncase = 1200 if tier == "quick" else 20000
+    ncase = 1500 if tier == "quick" else 20000
     comps = [("mate", p) for p in sorted(MATE)] + [("phenotype", None)] + [(k, None) for k in ("sus", "tiled_choice", "axis_shuffle", "outcross_shuffle")] \
         + [("cfg", k) for k in CFG_KINDS] + [("hc", "SteepestDescentSubsetHillClimber"), ("hc", "UnconstrainedSteepestAscentSetHillClimber")]
     for i in range(ncase):
@@ -1093,7 +1112,7 @@ def gen_explicit_cases(rnd, tier):
             op = gen_op(rnd, pop, [kind])
             if sub is None or op.get("proto") == sub or op.get("kind") == sub or op.get("algo") == sub:
                 break
-        mode = rnd.choice(["fresh-gen", "same-gen", "same-obj"])
+        mode = rnd.choice(["fresh-gen", "same-gen", "same-obj", "used-obj"])
         if op["op"] not in ("mate", "phenotype", "cfg", "opt"):
             mode = rnd.choice(["fresh-gen", "same-gen"])
         yield dict(clause="explicit", pop=pop, call=op, mode=mode, gkind=rnd.choice(GEN_KINDS), gseed=rnd.randrange(10 ** 6),
@@ -1104,8 +1123,9 @@ def gen_explicit_cases(rnd, tier):
 
 @unit(P, "ring[explicit generator: isolation and determinism per component]", "R", bounded=True,
       note="bounded: 23 components (7 mating protocols, G_E_Phenotyping, 4 sampling functions, 8 selection configurations, 2 "
-           "hill-climbers) x {PCG64, MT19937, Philox, SFC64 Generators, RandomState}; <= 8 taxa, <= 7 markers; 1200 (quick) / "
-           "20000 (thorough) calls; modes fresh generator / same generator restored / same protocol object")
+           "hill-climbers) x {PCG64, MT19937, Philox, SFC64 Generators, RandomState}; <= 8 taxa, <= 7 markers; 1500 (quick) / "
+           "20000 (thorough) calls; modes fresh generator / same generator restored / same protocol object / an identically built "
+           "object already used under another generator state")
 def u_explicit(ctx):
     ctx.rule = ("round-robin over the components, random valid arguments; every call is executed twice (three times when unrelated "
                 "calls are interleaved) from the same generator state under different global stream states; isolation: python "
@@ -1147,7 +1167,7 @@ def gen_opt_cases(rnd, tier, pin):
                     yield dict(clause="seeded", pop=pop, seed=gen_seed(rnd), program=[op], hist1=gen_noise(rnd, pop, maxlen=2),
                                hist2=gen_noise(rnd, pop, maxlen=3), persist=False, pin=pv, attempts=3 if pin is None else 1)
                 elif pin is None:
-                    yield dict(clause="explicit", pop=pop, call=op, mode=rnd.choice(["fresh-gen", "same-gen", "same-obj"]),
+                    yield dict(clause="explicit", pop=pop, call=op, mode=rnd.choice(["fresh-gen", "same-gen", "same-obj", "used-obj"]),
                                gkind=rnd.choice(GEN_KINDS), gseed=rnd.randrange(10 ** 6), noise1=gen_noise(rnd, pop, maxlen=2),
                                noise2=[dict(k="np", fn="random", n=1), dict(k="py", fn="random", n=1)] + gen_noise(rnd, pop, maxlen=2),
                                inter=[], pin=None, attempts=3)
@@ -1190,7 +1210,7 @@ def gen_select_cases(rnd, tier):
         proto = ["ebv", "ebv", "ebv", "random"][i % 4]
         op = dict(op="select", proto=proto, soalgo=rnd.choice(["hc", "sorting"]), ncross=nc, nparent=npar, nprogeny=rnd.choice([1, 2]), reps=rnd.choice([1, 2]))
         yield dict(clause="explicit", pop=pop, call=op,
-                   mode=rnd.choice(["fresh-gen", "same-gen", "same-obj"]), gkind=rnd.choice(GEN_KINDS), gseed=rnd.randrange(10 ** 6),
+                   mode=rnd.choice(["fresh-gen", "same-gen", "same-obj", "used-obj"]), gkind=rnd.choice(GEN_KINDS), gseed=rnd.randrange(10 ** 6),
                    noise1=gen_noise(rnd, pop, maxlen=2), noise2=[dict(k="np", fn="random", n=rnd.randrange(1, 4))] + gen_noise(rnd, pop, maxlen=2),
                    inter=[])
 
